@@ -566,7 +566,14 @@ pub fn exec_pair_dyn(pc: &PairCase, spec: &PairSpec, known: &BTreeSet<String>, s
     fn go<P: TP>(pc: &PairCase, spec: &PairSpec, known: &BTreeSet<String>, strict: bool) -> CaseResult {
         exec_pair::<P>(pc, spec, known, strict)
     }
-    crate::dispatch_tp!(pc.case.ptype.as_str(), go, pc, spec, known, strict)
+    let mut r = crate::dispatch_tp!(pc.case.ptype.as_str(), go, pc, spec, known, strict);
+    if spec.id == "C18" {
+        crate::hist::c18_twin(&mut r, || {
+            let twin = crate::ops::strip_noise(pc);
+            crate::dispatch_tp!(twin.case.ptype.as_str(), go, &twin, spec, known, strict)
+        });
+    }
+    r
 }
 
 pub fn pair_weights() -> Weights {
